@@ -39,6 +39,9 @@ def bounds(tier):
             "op_templates": len(OPS)}
 
 
+RANDOM_FUNCS = {"random", "choice", "choices", "sample"}
+
+
 def cells(tier, seed):
     out = []
     mutable = {"str", "list", "set", "map", "object"}
@@ -164,6 +167,13 @@ def run_preserve(ctx, cell):
         if f in SKIP:
             return ["skip"]
         text = "set_seed(1); %s(%s)" % (f, ", ".join(names))
+        if f in RANDOM_FUNCS:
+            # the generator state is environment: every seed of a small range, and lists long enough for
+            # a draw to repeat
+            text = "set_seed(%d); %s(%s)" % (ctx.choice("seed", 4), f, ", ".join(names))
+            if kinds[0] == "list":
+                env["x"] = [vlist([vint(1), vint(2), vint(3)]), vlist([vint(1), vint(1), vint(2)]),
+                            vlist([vstr("a"), vstr("b")]), env["x"]][ctx.choice("rl", 4)]
         key = "C16:preserve:%s(%s)" % (f, ",".join(kinds))
         may_change_first = f in MUTATORS
     else:
